@@ -61,7 +61,9 @@ def c16(ck, tmp):
     rng = ck.rng
     quick = ck.tier == "quick"
     n = 2500 if quick else 100000
-    lines, kinds = [], []
+    import json
+    from core import VERIF
+    lines, kinds = [json.load(open(os.path.join(VERIF, "corpus", "C16", "K1.json")))["line"]], ["repeat"]
     for k in range(n):
         r = rng.random()
         kind = "malformed" if r < 0.08 else "repeat" if r < 0.2 else "plain"
